@@ -8,6 +8,7 @@ GENERATOR_ASSUMPTIONS = [
     "generated traces are well-formed in the sense of the properties' quantifiers: events of one host thread properly nested, a correlation id on at most one host call and one device activity, positive device stream ids, first entry of a file a host operator, kernels of one stream never overlap",
     "profiler-step annotations carry the same names on all ranks of a world and sit on host threads only; GPU-side annotations are generated under other names",
     "no event argument is literally named 'rank'",
+    "a rank file is one process driving one device: all device activities of a file carry the same device id",
     "fractional timestamps are multiples of 1/8 us (exact in binary floating point) and non-zero durations in fractional worlds are >= 1 us",
     "the reference model is derived from the bytes on disk, never from the generator",
     "a clean batch is evidence, not proof: schedules, worlds and fault points are sampled, not enumerated",
